@@ -8,7 +8,7 @@ pub fn prop() -> Prop {
     Prop {
         id: "C11",
         level: "model_checking",
-        rule: "all sequences S of <=5 (thorough <=7) values over a 6-value universe (three records with per-record regex patterns incl. an invalid one, a record without the selected members, a scalar, an array with a nested cell longer than 64 bytes; two records share a pattern and a split element but differ in what a macro reads besides `.`) — i.e. every concatenation A.B with |A|+|B| <= 5 (thorough 7), every permutation and every duplication — x 28 pipelines made of --set, --split-by, --filter, --select (regex functions with cache sizes 0,1,2; variables; macros; previously selected names; ^ after split; --only-objects-and-arrays) x 5 output styles (one-line, consise, pretty, text, csv) plus text with --headers; and sequences of 64, 257 and 1031 values; sequences of <=4 values mixing small records with rows of 1 KiB, 9 KiB and 20 KiB; non-trivial = S holds two values with different rows; distinct by construction; a third of the sequences of <=3 values is also delivered as files, one value per file, a repeated value being the same file named again",
+        rule: "all sequences S of <=5 (thorough <=7) values over a 6-value universe (three records with per-record regex patterns incl. an invalid one, a record without the selected members, a scalar, an array with a nested cell longer than 64 bytes; two records share a pattern and a split element but differ in what a macro reads besides `.`) — i.e. every concatenation A.B with |A|+|B| <= 5 (thorough 7), every permutation and every duplication — x 29 pipelines made of --set, --split-by, --filter, --select (regex functions with cache sizes 0,1,2; variables; macros; previously selected names; ^ after split; --only-objects-and-arrays) x 5 output styles (one-line, consise, pretty, text, csv) plus text with --headers; and sequences of 64, 257 and 1031 values; sequences of <=4 values mixing small records with rows of 1 KiB, 9 KiB and 20 KiB; non-trivial = S holds two values with different rows; distinct by construction; a third of the sequences of <=3 values is also delivered as files, one value per file, a repeated value being the same file named again",
         explanation: "metamorphic: out(S) must be the header (out of the empty input) followed by the bodies of out([s]) for each s in S in order; this single relation over all S implies out(A.B)=out(A).out(B), permutation and duplication",
         assumptions: COMMON_ASSUMPTIONS.to_vec(),
         guards: vec!["values-delivered-as-files", "same-file-named-twice", "row-beyond-every-buffer", "hundreds-of-records", "two-patterns-through-a-one-entry-cache", "header-printed-once", "split-produced-rows", "value-dropped-by-filter", "repeated-value"],
@@ -69,6 +69,9 @@ fn pipelines() -> Vec<Pl> {
         // the same members in another order in consecutive rows (nested cells of text and csv rows); variables read
         // through the function spellings inside a set whose value comes from the record
         Pl { name: "member-order-and-function-spellings", args: vec!["--select=.o=o", "--select=(push [] .o .n)=po", "--select=(set \"q\" .n (push [] (get_variable \"q\") (: \"q\") :q))=z", "--select=(define \"d\" .s (push [] (@ \"d\") @d))=w"], selections: true, cache1: false },
+        // --set variables whose expression reads `.` but has a value on the empty input (evaluated once, before any record);
+        // and/or whose deciding argument differs from record to record
+        Pl { name: "preset-with-fall-back-and-logic", args: vec!["--set=dflt=(default .n 100)", "--set=kind=(stringify .)", "--select=:dflt=d", "--select=:kind=k", "--select=(and (< .n 2) (= .p \"^a+\"))=an", "--select=(or (> .n 1.7) (= .p \"[\"))=orr", "--filter=(!= :dflt .n)"], selections: true, cache1: false },
         // functions that give up half way (a list whose second element is of the wrong type, a group key that is not a
         // string for a later element) next to records for which the same call succeeds; group order inside a record
         Pl { name: "functions-that-give-up-half-way", args: vec!["--select=(join (push [] .s .n .s) \"-\")=j", "--select=(group_by .l (? (> . 2) . \"le2\"))=g", "--select=(keys (group_by (push .l 9 8 7 6 5) (stringify .)))=k", "--select=(sum (push [] .n .s))=sm", "--select=(concat .s .n .s)=c"], selections: true, cache1: false },
@@ -288,5 +291,5 @@ fn run(ctx: &mut Ctx) {
             }
         }
     }
-    ctx.level_done(&format!("all-sequences-of-<={maxlen}-values-x-28-pipelines-x-6-styles"));
+    ctx.level_done(&format!("all-sequences-of-<={maxlen}-values-x-29-pipelines-x-6-styles"));
 }
